@@ -765,6 +765,14 @@ pub enum Op {
         field_name: ConstantIndex,
     },
 
+    /// Brand check: r[dst] = #name in r[obj]
+    HasPrivateField {
+        dst: Register,
+        obj: Register,
+        class_brand: u32,
+        field_name: ConstantIndex,
+    },
+
     /// Set private field: r[obj].#name = r[value]
     SetPrivateField {
         obj: Register,
